@@ -60,4 +60,3 @@ package utils
 //@     invariant len(buf) == 0 || len(buf) == n + cpLead(p)
 //@     invariant cpLead(p) == 1 ==> len(buf) == n + 1
 //@     invariant trailing && r == n ==> w < n + cpLead(p)
-
